@@ -277,7 +277,7 @@ Section Safe.
     typed sub top1 t1 -> typed sub top2 t2 ->
     cx_one_point (flatten t1) (flatten t2) ds = Err e -> benign e.
   Proof.
-    intros Ht1 Ht2 H. unfold cx_one_point in H.
+    intros Ht1 Ht2 H. unfold cx_one_point, cx_one_point_with in H.
     destruct ((length (flatten t1) <? 2)%nat || (length (flatten t2) <? 2)%nat); [discriminate|].
     destruct (flatten t1) as [|r1 rest1] eqn:E1; [discriminate|]. rewrite <- E1 in *. clear E1.
     destruct (N.eqb (nret r1) tobj).
@@ -301,7 +301,7 @@ Section Safe.
     typed sub top1 t1 -> typed sub top2 t2 ->
     cx_leaf_biased pn pd (flatten t1) (flatten t2) ds = Err e -> benign e.
   Proof.
-    intros Ht1 Ht2 H. unfold cx_leaf_biased in H.
+    intros Ht1 Ht2 H. unfold cx_leaf_biased, cx_leaf_biased_with in H.
     destruct ((length (flatten t1) <? 2)%nat || (length (flatten t2) <? 2)%nat); [discriminate|].
     apply bind_err in H. destruct H as [H|(u1 & ds1 & _ & H)]; [eapply d_random_err; eauto|].
     apply bind_err in H. destruct H as [H|(u2 & ds2 & _ & H)]; [eapply d_random_err; eauto|].
